@@ -181,7 +181,7 @@ func (c *Ctx) checkEndingsClear(clearers []fieldAccess) {
 			}
 			return false
 		}
-		found, w := core.PathFromEdgeAvoiding(fn, edges, core.IsReturn, isClear, nil)
+		found, w := core.PathFromEdgeAvoidingX(fn, edges, core.IsReturn, isClear, nil)
 		r.Check(!found && cnt[0] > 0, "C15.3-endings-clear", fk(fn)+": every ending path frees the call slot", c.P.Pos(fn.Pos()), "",
 			"an ending path returns"+posOf(c, w)+" with the call slot still taken: every later invitation is answered busy")
 		// timer stopped in the function that produces the final message
